@@ -25,7 +25,11 @@ Definition f64_op (op : aop) (a b : f64) : f64 :=
 Definition num_op (op : aop) (a b : num) : num :=
   match a, b with
   | NI x, NI y => NI (z_op op x y)
-  | _, _ => NF (f64_op op (num_to_f64 a) (num_to_f64 b)) end.
+  | NF _, _ | _, NF _ => NF (f64_op op (num_to_f64 a) (num_to_f64 b))
+  | _, _ => match num_exact a, num_exact b with        (* Fraction with int / Fraction: exact *)
+            | Some u, Some v => NR (exact_op op u v)
+            | _, _ => NF (f64_op op (num_to_f64 a) (num_to_f64 b)) end
+  end.
 
 (* NumPy binary operation on two arrays (elementwise): same integer dtype wraps, int64 with
    uint64 is promoted to float64, anything with an object array is done on Python objects *)
@@ -38,9 +42,7 @@ Definition mbin (op : aop) (a b : mval) : mval :=
   end.
 
 (* array * 2**k : a Python int factor for k >= 0 (NEP 50: the array dtype is kept and the
-   product wraps; OverflowError if the factor itself does not fit), a Python float for k < 0
-   (functions._rescale: for values of more than 53 bits the code uses exact rationals instead;
-   not modelled, outside the theorems' domain of at most 53-bit intermediate results) *)
+   product wraps; OverflowError if the factor itself does not fit), a Python float for k < 0 *)
 Definition mscale (v : mval) (k : Z) : outcome mval :=
   if 0 <=? k then
     match v with
@@ -55,17 +57,38 @@ Definition mscale (v : mval) (k : Z) : outcome mval :=
     | _ => Ok (MF (f64_mul_pow2 (num_to_f64 (as_num v)) k))
     end.
 
-(* utils.scale_raw(val, shift) on one element: val * 2**shift, with Python integers when the factor
+(* utils.scale_raw(val, shift, exact) on one element: val * 2**shift, with Python integers when the factor
    or the scaled value would not fit in 63 bits (the decision is array-wide in the code; an array
-   whose elements decide differently is not modelled: arr_of rejects mixed kinds) *)
-Definition mscale_raw (v : mval) (k : Z) : outcome mval :=
+   whose elements decide differently is not modelled: arr_of rejects mixed kinds).  For a negative
+   shift and [ex] (utils.needs_exact_scale: some integer of the array has more than 53 bits; or the
+   caller's `exact` argument) every integer becomes the exact rational val * Fraction(1, 1 << -shift). *)
+Definition mscale_raw (ex : bool) (v : mval) (k : Z) : outcome mval :=
   if 0 <? k then
     match v with
     | MI z | MU z => if (63 <=? k) || (2^63 <=? Z.abs z * 2^k) then Ok (MO (NI (z * 2^k)))
                      else Ok (match v with MU _ => MU (z * 2^k) | _ => MI (z * 2^k) end)
     | _ => mscale v k
     end
+  else if (k <? 0) && ex then
+    match v with
+    | MI z | MU z | MO (NI z) => Ok (MO (NR {| dm := z; de := k |}))
+    | _ => mscale v k
+    end
   else mscale v k.
+(* the magnitude test of utils.needs_exact_scale on one element (integers only) *)
+Definition int_mag_ge (v : mval) (b : Z) : bool :=
+  match v with MI z | MU z | MO (NI z) => b <=? Z.abs z | _ => false end.
+
+(* functions._rescale(val, shift, n_frac, exact): scale_raw for a negative shift; an object factor when
+   n_frac >= 64 (precision_cast); scale_raw otherwise (Python integers when the product needs 64 bits) *)
+Definition rescale (ex pc : bool) (v : mval) (k : Z) : outcome mval :=
+  if k <? 0 then mscale_raw ex v k
+  else if pc then mscale (to_obj v) k
+  else mscale_raw false v k.
+(* functions._needs_exact_sum: a negative shift on at least one side and a sum of more than 53 bits *)
+Definition needs_exact_sum (fx fy : fmt) (nfr : Z) : bool :=
+  let d := Z.max (Z.max (nf fx - nfr) (nf fy - nfr)) 0 in
+  (0 <? d) && (53 <? Z.max (nw fx + nfr - nf fx) (nw fy + nfr - nf fy) + 2 + d).
 
 (* functions._raw_cast: Python integers when the result needs 64 bits or more, or when
    operands of different dtypes would be promoted to float64 beyond 53 bits *)
@@ -76,21 +99,35 @@ Definition precision_cast (n_frac : Z) : bool := 64 <=? n_frac.
 
 Definition cast_if (b : bool) (v : mval) : mval := if b then to_obj v else v.
 
-(* _add_raw / _sub_raw / _mul_raw on one pair of codes, result n_frac given *)
-Definition raw_elem (op : aop) (fx fy : fmt) (nfr : Z) (cx cy : Z) : outcome mval :=
+(* the raw product of _mul_raw, before it is rescaled *)
+Definition raw_prod (fx fy : fmt) (cx cy : Z) : mval :=
+  let dx := storage fx in let dy := storage fy in
+  let rc := raw_cast dx dy (nw fx + nw fy) in
+  mbin OpMul (cast_if rc (load dx cx)) (cast_if rc (load dy cy)).
+(* _sub_raw: two uint64 raw values are subtracted in int64 (their difference can be negative) *)
+Definition msub (a b : mval) : mval :=
+  match a, b with
+  | MU x, MU y => MI (wrap_i64 (wrap_i64 x - wrap_i64 y))
+  | _, _ => mbin OpSub a b end.
+(* _add_raw / _sub_raw / _mul_raw on one pair of codes, result n_frac given; [ex] is the array-wide
+   decision to rescale with exact rationals (needs_exact_sum for + and -, needs_exact_scale of the
+   product array for * ) *)
+Definition raw_elem (ex : bool) (op : aop) (fx fy : fmt) (nfr : Z) (cx cy : Z) : outcome mval :=
   let dx := storage fx in let dy := storage fy in
   let pc := precision_cast nfr in
   match op with
   | OpAdd | OpSub =>
       let rc := raw_cast dx dy (Z.max (nw fx + nfr - nf fx) (nw fy + nfr - nf fy) + 2) in
-      bind (mscale (cast_if (rc || pc) (load dx cx)) (nfr - nf fx)) (fun a =>
-      bind (mscale (cast_if (rc || pc) (load dy cy)) (nfr - nf fy)) (fun b =>
-      Ok (mbin op a b)))
-  | OpMul =>
-      let rc := raw_cast dx dy (nw fx + nw fy) in
-      let p := mbin OpMul (cast_if rc (load dx cx)) (cast_if rc (load dy cy)) in
-      mscale (cast_if pc p) (nfr - nf fx - nf fy)
+      bind (rescale ex pc (cast_if rc (load dx cx)) (nfr - nf fx)) (fun a =>
+      bind (rescale ex pc (cast_if rc (load dy cy)) (nfr - nf fy)) (fun b =>
+      Ok (match op with OpSub => msub a b | _ => mbin op a b end)))
+  | OpMul => rescale ex pc (raw_prod fx fy cx cy) (nfr - nf fx - nf fy)
   end.
+Definition arith_exact (op : aop) (fx : fmt) (cxs : list Z) (fy : fmt) (cys : list Z) (nfr : Z) : bool :=
+  match op with
+  | OpMul => (nfr - nf fx - nf fy <? 0) &&
+             existsb (fun p => int_mag_ge (raw_prod fx fy (fst p) (snd p)) (2^53)) (combine cxs cys)
+  | _ => needs_exact_sum fx fy nfr end.
 
 (* the array handed to set_val(raw=True) and the vdtype it is cast to (type(val.item(0))) *)
 Definition all_MI (l : list mval) : option (list Z) :=
@@ -108,7 +145,7 @@ Definition arr_of (l : list mval) : outcome (arr * vdt) :=
   | MU _ :: _ => match all_MU l with Some zs => Ok (AU64 zs, VInt) | None => Unmodelled end
   | MF _ :: _ => match all_MF l with Some xs => Ok (AF64 xs, VFloat) | None => Unmodelled end
   | MO n :: _ => match all_MO l with
-                 | Some ns => Ok (AObj ns, match n with NI _ => VInt | NF _ => VFloat end)
+                 | Some ns => Ok (AObj ns, match n with NI _ => VInt | _ => VFloat end)   (* (type(val.item(0)); irrelevant for rationals) *)
                  | None => Unmodelled end
   end.
 
@@ -135,7 +172,7 @@ Definition get_sizing (sz : sizing) (op : aop) (fx fy : fmt) : fmt :=
    Operands are given elementwise (already broadcast to a common length). *)
 Definition arith_raw (op : aop) (fx : fmt) (cxs : list Z) (fy : fmt) (cys : list Z)
   (fz : fmt) (r : rmode) (o : omode) : outcome wres :=
-  bind (map2M (raw_elem op fx fy (nf fz)) cxs cys) (fun raws =>
+  bind (map2M (raw_elem (arith_exact op fx cxs fy cys (nf fz)) op fx fy (nf fz)) cxs cys) (fun raws =>
   bind (arr_of raws) (fun av =>
   set_val_real fz r o true (fst av) (snd av))).
 
